@@ -17,7 +17,7 @@
 //     on the current tip. Oracle after every delivery: the index entry of hash(G) never carries a BLOCK_FAILED flag, no
 //     variant is ever stored (data on disk == G's transactions), G is accepted and becomes tip whenever delivered.
 //     A second alphabet adds the witness-stuffed variants (weight > 4,000,000 only through ~4 MB of coinbase / transaction
-//     witness: still 'mutated', never 'too heavy') to depth 2 (quick) / 4 (thorough).
+//     witness: still 'mutated', never 'too heavy') to depth 2 (quick) / 3 (thorough).
 #include <vx/vx.h>
 #include <kits/chainkit.h>
 
@@ -452,7 +452,7 @@ int main(int argc, char** argv)
     std::vector<std::string> alphabet_oversized{"G", "H"};
     for (auto& o : OVERSIZED) alphabet_oversized.push_back(o);
     alphabet_oversized.push_back("strip-witness-t1");
-    const int DO = big ? 4 : 2;
+    const int DO = big ? 3 : 2;
     std::vector<std::string>* cur_alphabet = &alphabet;
     auto run_sequence = [&](const std::vector<int>& seq) {
         std::set<std::string> need;
